@@ -55,7 +55,7 @@ func init() {
 			}, MinSites: 4},
 			{ID: "C02.1", Desc: "decision rows: no-cache / stale+must-revalidate / request no-cache forbid unvalidated reuse", Run: ruleC02_1, MinSites: 3},
 			{ID: "C02.2", Desc: "max-stale does not override must-revalidate / no-cache", Run: ruleC02_2, MinSites: 1},
-			{ID: "C02.3", Desc: "conditional request: validators copied onto a clone", Run: func(c *Ctx) { ruleC02_3(c); ruleValidatorGuards(c, "C02.3") }, MinSites: 3},
+			{ID: "C02.3", Desc: "conditional request: validators copied onto a clone", Run: func(c *Ctx) { ruleC02_3(c); ruleValidatorGuards(c, "C02.3"); ruleClientValidatorsRemoved(c, "C02.3") }, MinSites: 3},
 			{ID: "C02.4", Desc: "qualified no-cache fields stripped on every unvalidated return", Run: ruleC02_4, MinSites: 1},
 			{ID: "C02.5", Desc: "validation handler returns the stored response only for 304 (or stale-if-error)", Run: ruleC02_5, MinSites: 1},
 			{ID: "C02.8", Desc: "unqualified no-cache is not lost to a repeated or member-less qualified form", Run: func(c *Ctx) { ruleC12_11(c); ruleC12_12(c); renameRule(c, "C12.11", "C02.8"); renameRule(c, "C12.12", "C02.8") }, MinSites: 2},
@@ -86,6 +86,17 @@ func ruleC02_1(c *Ctx) {
 	c.ForbidOb("C02.1", "row=d-request-max-age-exceeded", map[string]bool{"rq.max-age.ok": true, "rq.max-age.exceeded": true, "fr.stale": true, "rq.only-if-cached": false, not304: false},
 		"SWR-SPAWN", c.An.IsSWRSpawn, true,
 		"request `max-age=0` (or any max-age below the stored response's age) against a stored `max-age=60, stale-while-revalidate=600` entry is answered STALE without validation in the same exchange")
+	// max-age=0 is exceeded by every stored response, whatever the freshness record says
+	// (the stale-if-error return of the validation handler comes after the origin was contacted: C13 decides it)
+	inHandler := map[*ssa.Function]bool{}
+	if vh := c.A.F("validationHandler"); vh != nil {
+		for _, g := range c.reachableFrom(vh) {
+			inHandler[g] = true
+		}
+	}
+	c.ForbidOb("C02.1", "row=e-request-max-age-zero", map[string]bool{"rq.max-age.ok": true, "rq.max-age.val==0": true, not304: false},
+		"UNVALIDATED-REUSE", func(in ssa.Instruction) bool { return c.An.IsUnvalidatedReuse(in) && !inHandler[in.Parent()] }, true,
+		"request `max-age=0` against a stored fresh (or immutable) response is answered from the store without contacting the origin")
 }
 
 // ruleOneEntry: exactly one entry-read site on the exchange, so rs.* atoms all concern one stored response.
